@@ -121,7 +121,7 @@ SIGS['C'] = {
     'unknown': [],
     'cs_args': ['alpha'],
     'verb': False,
-    'accents': ["'", '^', 'c'],
+    'accents': ["'", '^', 'c', '~'],
 }
 
 DEVIATIONS = [' ', '\n', '%c\n']
